@@ -21,6 +21,9 @@ type schemaField struct {
 	Name      string `json:"name"` // "[namespace ]local"; "" for chardata/any
 	Kind      string `json:"kind"` // element | attr | chardata | any | xmlname | innerxml | ignored
 	OmitEmpty *bool  `json:"omitempty,omitempty"`
+	// lexical space the RFC gives the value: "unsigned" = a non-negative integer, so the Go field must be of an unsigned
+	// integer type (encoding/xml then refuses a sign or a non-digit with an error, T-xml / strconv.ParseUint)
+	Lexical string `json:"lexical,omitempty"`
 }
 
 type schemaStruct struct {
@@ -122,6 +125,11 @@ func checkSchema(P *Program, items []string) []*FuncResult {
 					}
 					if exp.Kind != got.Kind || exp.Name != got.Name {
 						diffs = append(diffs, fmt.Sprintf("field %s: have %s %q, RFC %s %q", fn, got.Kind, got.Name, exp.Kind, exp.Name))
+					}
+					if exp.Lexical == "unsigned" {
+						if b, ok := st.Field(i).Type().Underlying().(*types.Basic); !ok || b.Info()&types.IsUnsigned == 0 {
+							diffs = append(diffs, fmt.Sprintf("field %s: RFC value space is a non-negative integer, Go type %s accepts other texts", fn, st.Field(i).Type()))
+						}
 					}
 					if exp.OmitEmpty != nil && got.OmitEmpty != nil && *exp.OmitEmpty != *got.OmitEmpty {
 						diffs = append(diffs, fmt.Sprintf("field %s: omitempty have %v, required %v", fn, *got.OmitEmpty, *exp.OmitEmpty))
